@@ -142,6 +142,18 @@ PROPS = {
         'level_text': 'Verus proves on the real bodies: the signed bytes are compact-size(24) ++ "Bitcoin Signed Message:\\n" ++ compact-size(len) ++ message for every length (compact-size writer proved by Kani over all u64), the signed digest is its double SHA-256, signing carries the key compression marker; verify returns Ok(true) only if the key recovered with the recorded id hashes (hash160 of its recorded compression form) to the address hash and the signature verifies, and returns Ok whenever that holds - independent of the address prefix.',
         'level_note': TB,
     },
+    'C08': {
+        'units': {
+            'bip32_glue': ['*'],
+            'hash_glue': ['Hash::sha_512_hmac', 'Hash::hmac', 'Hash::hash_160'],
+        },
+        'assumptions': ['HMAC-SHA512, hash160, scalar addition mod n, point addition, d*G, SEC1 and Base58 are uninterpreted functions (hmac, sha2, k256, bs58 assumed); equality with an independent BIP32 implementation is decided only up to these primitives',
+                        'axiom_bip32_distributes: (k + IL)*G == k*G + IL*G; axiom_generator_mul',
+                        'NOT covered: derive_from_path_impl (iterator adapters over str::split with function values) and the xpub to_string_impl (Cursor used as a read/write buffer); the path grammar is covered only per segment through parse_str_to_idx with str methods uninterpreted'],
+        'design_ref': 'DESIGN.md section 4 C08',
+        'level_text': 'Verus proves on the real bodies: master key = split of HMAC-SHA512(key "Bitcoin seed", seed); private child: data 00 ++ k ++ be32(i) (hardened) or serP(K) ++ be32(i) (normal), HMAC keyed by the chain code, key IL + k mod n, chain IR, depth + 1 with overflow refused, fingerprint = first 4 bytes of hash160(serP(Kpar)); public child: hardened index refused, point IL*G + Kpar, same chain / depth / fingerprint rules; xprv text = Base58(78-byte layout ++ 4-byte sha256d checksum); both from_string functions enforce the 82-byte length and the checksum and decode the fields by position; a path segment yields an index < 2^31 plus 2^31 for the hardened markers without overflow. CKDpub(N(parent)) == N(CKDpriv(parent)) is a lemma from the distributivity axiom.',
+        'level_note': TB + ' Cryptographic primitives are assumed, not verified.',
+    },
     'C04': {
         'units': {
             'tx_cache': ['*'],
@@ -156,7 +168,6 @@ PROPS = {
 }
 
 NOT_CLAIMED = {
-    'C08': 'not reached yet',
     'C09': 'not reached yet',
     'C14': 'not reached yet',
     'C15': 'not reached yet',
